@@ -186,6 +186,7 @@ func model(alpha []piece, seq []int) (steps []stepOut, globals map[string]string
 type replayIn struct {
 	Pieces []string `json:"pieces"`
 	Seq    []int    `json:"alphabet_indices"`
+	Family string   `json:"family,omitempty"` // "" = the piece alphabet, "contexts" = rejected compositions
 }
 
 func show(steps []stepOut) string {
@@ -206,11 +207,15 @@ func gshow(g map[string]string) string {
 }
 
 func judge(r *ev.Run, env *rt.Env, alpha []piece, seq []int, verbose bool) string {
+	return judgeFam(r, env, alpha, seq, verbose, "")
+}
+
+func judgeFam(r *ev.Run, env *rt.Env, alpha []piece, seq []int, verbose bool, family string) string {
 	names := make([]string, len(seq))
 	for i, k := range seq {
 		names[i] = alpha[k].src()
 	}
-	in := replayIn{names, seq}
+	in := replayIn{names, seq, family}
 	got, gg, sps, pan := incremental(env, alpha, seq)
 	if pan != "" {
 		r.Report("C18:gopanic", fmt.Sprintf("%q\n  %s", names, pan), in, pan, "")
@@ -281,7 +286,10 @@ func Check(r *ev.Run, replay string) {
 			r.EngineError(err.Error())
 			return
 		}
-		judge(r, rt.NewEnv(nil), alpha, in.Seq, true)
+		if in.Family == "contexts" {
+			alpha = contextAlphabet()
+		}
+		judgeFam(r, rt.NewEnv(nil), alpha, in.Seq, true, in.Family)
 		r.Set("states", 1)
 		r.Set("transitions", 1)
 		r.Set("traces_validated_against_impl", 1)
@@ -382,14 +390,15 @@ func Check(r *ev.Run, replay string) {
 		}
 	}
 	longHistory(r, alpha)
+	nctx := runContexts(r)
 	r.Set("states", len(allStates))
-	r.Set("transitions", len(seqs))
-	r.Set("traces_validated_against_impl", len(seqs))
+	r.Set("transitions", len(seqs)+nctx)
+	r.Set("traces_validated_against_impl", len(seqs)+nctx)
 	r.Set("alphabet_size", len(alpha))
 	r.Set("max_history_length", depth)
 	r.Set("feature_groups", groupNames)
 	r.Set("full_alphabet_history_length", fullDepth)
-	r.Set("rule", fmt.Sprintf("every sequence of 1..%d pieces over the core pieces plus one feature group at a time, and every sequence of 1..%d pieces over the whole %d-piece alphabet (definitions, uses, a loop, a closure, functions made by a factory that read and write a global, a constant; pieces the compiler must reject: undefined name, constant assignment, redeclaration, a rejected piece with a side-effecting prefix, a rejected piece that is the first to mention a method name, a syntax error; pieces that fail at run time, one of them mid-piece) fed to one compiler and one VM as cmd/risor/repl does; oracle: per-piece status/value/output and final globals equal the reference session model (a rejected piece has no effect; a failed piece keeps its effects up to the failure); states = distinct (per-piece outcomes, globals) of the model, transitions = histories executed on the implementation", depth, fullDepth, len(alpha)))
+	r.Set("rule", fmt.Sprintf("every sequence of 1..%d pieces over the core pieces plus one feature group at a time, and every sequence of 1..%d pieces over the whole %d-piece alphabet (definitions, uses, a loop, a closure, functions made by a factory that read and write a global, a constant; pieces the compiler must reject: undefined name, constant assignment, redeclaration, a rejected piece with a side-effecting prefix, a rejected piece that is the first to mention a method name, a syntax error; pieces that fail at run time, one of them mid-piece) fed to one compiler and one VM as cmd/risor/repl does; oracle: per-piece status/value/output and final globals equal the reference session model (a rejected piece has no effect; a failed piece keeps its effects up to the failure); rejected compositions: every expression slot of every statement and expression form (the F8 contexts, directly and through 16 wrappers) filled with an undefined name in 8 positions, as sessions [definitions, rejected, probe] and [definitions, probe, rejected, probe] with a probe piece that uses calls, a pipe, break, switch, a closure, defer and try; states = distinct (per-piece outcomes, globals) of the model, transitions = histories executed on the implementation", depth, fullDepth, len(alpha)))
 }
 
 // longHistory: a REPL session of many pieces must not run out of VM capacity.
@@ -412,6 +421,6 @@ func longHistory(r *ev.Run, alpha []piece) {
 		if len(sps) > 0 {
 			depthAt = sps[len(sps)-1]
 		}
-		r.Report("C18:long-session-exhausts-stack", fmt.Sprintf("x := 1 followed by 1200 pieces `x`: %s (stack depth %d)", bad, depthAt), replayIn{[]string{"x := 1", "x (1200 times)"}, seq}, bad, "every piece evaluates to 1")
+		r.Report("C18:long-session-exhausts-stack", fmt.Sprintf("x := 1 followed by 1200 pieces `x`: %s (stack depth %d)", bad, depthAt), replayIn{[]string{"x := 1", "x (1200 times)"}, seq, ""}, bad, "every piece evaluates to 1")
 	}
 }
